@@ -32,6 +32,8 @@ type Target struct {
 	OutFiles    []string          `json:"out_files,omitempty"`
 	OutDirs     []string          `json:"out_dirs,omitempty"`
 	Bin         string            `json:"bin,omitempty"`
+	// NoCommand: a grouping target (dependencies only): grog runs nothing for it, so it never shows in the trace
+	NoCommand bool `json:"no_command,omitempty"`
 	Nonce       int               `json:"nonce"`
 	Tags        []string          `json:"tags,omitempty"`
 	Fingerprint map[string]string `json:"fingerprint,omitempty"`
@@ -67,6 +69,31 @@ type WS struct {
 	// bit 0: a dependency in the same package is written ":name"; bit 1: so is an alias' "actual";
 	// bit 2: //pkg:name with name == last segment of pkg is written "//pkg"
 	Spell int `json:"spell,omitempty"`
+}
+
+func splitLabel(l string) (pkg, name string, ok bool) {
+	rest := strings.TrimPrefix(l, "//")
+	i := strings.LastIndex(rest, ":")
+	if i < 0 {
+		return "", "", false
+	}
+	return rest[:i], rest[i+1:], true
+}
+
+// relSpelling: ":name" if l lives in fromPkg, else "".
+func (w WS) relSpelling(fromPkg, l string) string {
+	if pkg, name, ok := splitLabel(l); ok && pkg == fromPkg {
+		return ":" + name
+	}
+	return ""
+}
+
+// shortSpelling: "//pkg" if l is //pkg:<last segment of pkg>, else "".
+func (w WS) shortSpelling(l string) string {
+	if pkg, name, ok := splitLabel(l); ok && pkg != "" && path.Base(pkg) == name {
+		return "//" + pkg
+	}
+	return ""
 }
 
 func (w WS) spellLabel(fromPkg, l string, relBit int) string {
@@ -148,6 +175,30 @@ func (w WS) DirectDeps(t *Target) []string {
 			out = append(out, r)
 		}
 	}
+	sort.Strings(out)
+	return out
+}
+
+// EffectiveDeps: the targets whose commands have to be finished before t's command may start: direct dependencies,
+// looking through grouping targets (which have no command of their own).
+func (w WS) EffectiveDeps(t *Target) []string {
+	seen := map[string]bool{}
+	var out []string
+	var visit func(x *Target)
+	visit = func(x *Target) {
+		for _, d := range w.DirectDeps(x) {
+			if seen[d] {
+				continue
+			}
+			seen[d] = true
+			if dt := w.Target(d); dt != nil && dt.NoCommand {
+				visit(dt)
+			} else {
+				out = append(out, d)
+			}
+		}
+	}
+	visit(t)
 	sort.Strings(out)
 	return out
 }
@@ -438,6 +489,9 @@ func digest(parts ...string) string {
 // Command renders the sh command of t. It never contains an absolute path, the
 // resolved input list, or anything else that is not part of the declared state.
 func (w WS) Command(t *Target) string {
+	if t.NoCommand {
+		return ""
+	}
 	var b strings.Builder
 	id := t.ID()
 	b.WriteString("export LC_ALL=C\n")
@@ -534,15 +588,17 @@ func (w WS) Command(t *Target) string {
 	}
 	fmt.Fprintf(&b, "if [ -n \"${TRACE_PID:-}\" ]; then printf 'E %%s %%s\\n' \"$PPID\" \"$GROG_TARGET\" >> \"$TRACE_PID\"; fi\n")
 	fmt.Fprintf(&b, "printf 'E %%s\\n' \"$GROG_TARGET\" >> \"$TRACE\"\n")
+	// the last statement decides the exit status: an and-list whose left side is false fails without tripping `set -e`
+	fmt.Fprintf(&b, "[ ! -f \"$EXT/softfail.%s\" ] && :\n", id)
 	return b.String()
 }
 
 // CheckCommand renders the output check command for c (logs a K line so that its execution is observable).
 func CheckCommand(c Check) string {
 	if c.Expected == "" {
-		return fmt.Sprintf("printf 'K %%s %s\\n' \"$GROG_TARGET\" >> \"$TRACE\"; test -f \"$EXT/marker.%s\"", c.Marker, c.Marker)
+		return fmt.Sprintf("printf 'K %%s %s\\n' \"$GROG_TARGET\" >> \"$TRACE\"; test -f \"$EXT/marker.%s\" && :", c.Marker, c.Marker)
 	}
-	return fmt.Sprintf("printf 'K %%s %s\\n' \"$GROG_TARGET\" >> \"$TRACE\"; cat \"$EXT/marker.%s\"", c.Marker, c.Marker)
+	return fmt.Sprintf("printf 'K %%s %s\\n' \"$GROG_TARGET\" >> \"$TRACE\"; test -f \"$EXT/marker.%s\" && cat \"$EXT/marker.%s\"", c.Marker, c.Marker, c.Marker)
 }
 
 // OutputDefs: declared outputs as written into the BUILD file.
@@ -592,8 +648,21 @@ func (w WS) Render() map[string]string {
 	for i := range w.Targets {
 		t := &w.Targets[i]
 		var spelled []string
+		declared := map[string]string{}
 		for _, d := range t.Deps {
-			spelled = append(spelled, w.spellLabel(t.Pkg, d, 1))
+			sp := w.spellLabel(t.Pkg, d, 1)
+			if first, again := declared[d]; again {
+				// the same dependency declared a second time: in another spelling where the label has one
+				for _, alt := range []string{d, w.relSpelling(t.Pkg, d), w.shortSpelling(d)} {
+					if alt != "" && alt != first {
+						sp = alt
+						break
+					}
+				}
+			} else {
+				declared[d] = sp
+			}
+			spelled = append(spelled, sp)
 		}
 		bt := buildTarget{Name: t.Name, Command: w.Command(t), Dependencies: spelled, Inputs: t.Inputs, Excludes: t.Excludes, Outputs: t.OutputDefs(), Bin: t.Bin,
 			Tags: t.Tags, Fingerprint: t.Fingerprint, Timeout: t.Timeout}
